@@ -137,8 +137,16 @@ pub fn check_project(ctx: &Ctx, n: u64, pv: &ProjView) -> (Vec<Violation>, Vec<V
                         let base = Path::new(path).parent().map(|p| p.to_string_lossy().to_string()).unwrap_or_default();
                         let resolved = norm(&format!("{base}/{spec}"));
                         // TypeScript resolves "x.js" to x.ts / x.d.ts
-                        let stem = resolved.strip_suffix(".js").unwrap_or(&resolved).to_string();
-                        let cands = [format!("{stem}.d.ts"), format!("{stem}.ts"), resolved.clone()];
+                        // (".mjs" -> .mts / .d.mts, ".cjs" -> .cts / .d.cts)
+                        let cands: Vec<String> = if let Some(st) = resolved.strip_suffix(".js") {
+                            vec![format!("{st}.d.ts"), format!("{st}.ts"), format!("{st}.tsx"), resolved.clone()]
+                        } else if let Some(st) = resolved.strip_suffix(".mjs") {
+                            vec![format!("{st}.d.mts"), format!("{st}.mts"), resolved.clone()]
+                        } else if let Some(st) = resolved.strip_suffix(".cjs") {
+                            vec![format!("{st}.d.cts"), format!("{st}.cts"), resolved.clone()]
+                        } else {
+                            vec![resolved.clone()]
+                        };
                         if let Some(so) = &schema_out_abs {
                             if !cands.iter().any(|c| c == so) {
                                 v20.push(Violation { sig: format!("C20|e2e|schema-import-does-not-resolve|{kind}"), detail: format!("{path} imports {spec:?} which resolves to {resolved}; the schema output is {so}"), replay: replay20.clone() });
